@@ -182,6 +182,14 @@ impl Ldap {
         next_ldap_id
     }
 
+    // Controls, timeout and search options only apply to the next operation, even
+    // if that operation fails before a request is sent.
+    fn discard_modifiers(&mut self) {
+        self.controls = None;
+        self.timeout = None;
+        self.search_opts = None;
+    }
+
     pub(crate) async fn op_call(
         &mut self,
         op: LdapOp,
@@ -607,6 +615,7 @@ impl Ldap {
             ],
         });
         if any_empty {
+            self.discard_modifiers();
             return Err(LdapError::AddNoValues);
         }
         Ok(self.op_call(LdapOp::Single, req).await?.0)
@@ -728,6 +737,7 @@ impl Ldap {
             ],
         });
         if any_add_empty {
+            self.discard_modifiers();
             return Err(LdapError::AddNoValues);
         }
         Ok(self.op_call(LdapOp::Single, req).await?.0)
